@@ -158,6 +158,16 @@ func controller(site string, gid int64, args []int64) {
 			st.log("queued: about to sleep in cond.Wait behind the owner")
 		case "summon.woke":
 			st.slotWait.Store(false)
+		case "summon.waitclose":
+			st.closeWait.Store(true)
+			if st.nclose++; st.nclose <= 2 {
+				st.log("owner found the instance closing: waits in WaitForGracefulClose")
+			}
+		case "summon.closed":
+			st.closeWait.Store(false)
+			if st.nclose <= 2 {
+				st.log("owner: WaitForGracefulClose returned")
+			}
 		case "summon.ctxleave":
 			st.log("left the queue: context done")
 		}
@@ -526,24 +536,27 @@ func destroyProbe(srv *rig.Server, i int, kinds []bool, foreign bool) (final int
 // ---- hydra.SummonSwamp: the wait in the per-name summon slot queue ---------------------------
 
 type sthr struct {
-	c        *scase
-	idx      int
-	gid      int64
-	resume   chan struct{}
-	parked   atomic.Bool
-	done     atomic.Bool
-	bodySeen bool
-	slotWait atomic.Bool // between the hooks summon.wait and summon.woke: in the slot's cond.Wait
-	ctx      context.Context
-	cancel   context.CancelFunc
-	started  bool
+	c         *scase
+	idx       int
+	gid       int64
+	resume    chan struct{}
+	parked    atomic.Bool
+	done      atomic.Bool
+	bodySeen  bool
+	nclose    int
+	slotWait  atomic.Bool // between the hooks summon.wait and summon.woke: in the slot's cond.Wait
+	closeWait atomic.Bool // between summon.waitclose and summon.closed: in WaitForGracefulClose
+	ctx       context.Context
+	cancel    context.CancelFunc
+	started   bool
 }
 
 type scase struct {
-	cleanup atomic.Bool // no more parking
-	mu      sync.Mutex
-	human   []string
-	thrs    []*sthr
+	cleanup     atomic.Bool // no more parking
+	destroyHeld atomic.Bool // a Destroy is in flight and held back by the harness: waiting for it is a resting state
+	mu          sync.Mutex
+	human       []string
+	thrs        []*sthr
 }
 
 var sthreads sync.Map // gid -> *sthr
@@ -579,7 +592,7 @@ func (c *scase) squiesce() {
 			// queue. A summoner blocked on a mutex is transient here (the slot lock is never held
 			// across a park, and the engine's own locks are held by goroutines outside the case).
 			s, ok := st[t.gid]
-			if !ok || !((s == "chan receive" && t.parked.Load()) || (s == "sync.Cond.Wait" && t.slotWait.Load())) {
+			if !ok || !((s == "chan receive" && t.parked.Load()) || (s == "sync.Cond.Wait" && t.slotWait.Load()) || (s == "select" && t.closeWait.Load() && c.destroyHeld.Load())) {
 				busy = true
 				break
 			}
@@ -603,7 +616,7 @@ var summonHangs atomic.Int64
 // cancelled; then whoever owns the section is released, again and again. Once nobody owns the
 // section and nothing is parked, every request must have returned: a request still asleep in
 // the slot queue is blocked although the summon it waited for has finished.
-func summonCase(srv *rig.Server, idx int, r *common.Rng, second bool) (n, ncancel int, hung []int, human []string) {
+func summonCase(srv *rig.Server, idx int, r *common.Rng, second, destroying bool) (n, ncancel int, hung []int, human []string) {
 	nm := fmt.Sprintf("c17/q/s%d", idx)
 	h := srv.Zeus.GetHydra()
 	n = 3 + r.Intn(4)
@@ -636,10 +649,25 @@ func summonCase(srv *rig.Server, idx int, r *common.Rng, second bool) (n, ncance
 		t.started = true
 		c.squiesce()
 	}
-	if second {
+	var closingObj swamp.Swamp
+	if second || destroying {
 		// the name has been summoned before: the owners find the instance instead of creating it
-		if _, err := h.SummonSwamp(context.Background(), 1, rig.Name(nm)); err != nil {
+		obj, err := h.SummonSwamp(context.Background(), 1, rig.Name(nm))
+		if err != nil {
 			panic(err)
+		}
+		if destroying {
+			// a Destroy of that instance is in flight and cannot finish before the harness ceases
+			// the vigil it holds: the first owner will wait for it in WaitForGracefulClose, the
+			// others queue up behind that owner
+			obj.BeginVigil()
+			closingObj = obj
+			c.destroyHeld.Store(true)
+			go obj.Destroy()
+			for dl := time.Now().Add(2 * time.Second); !obj.IsClosing() && time.Now().Before(dl); {
+				time.Sleep(50 * time.Microsecond)
+			}
+			c.note("Destroy of the current instance started (held back by a vigil of the harness)")
 		}
 	}
 	start(c.thrs[0])
@@ -675,6 +703,15 @@ func summonCase(srv *rig.Server, idx int, r *common.Rng, second bool) (n, ncance
 			if !t.done.Load() && t.parked.Load() {
 				owner = t
 			}
+		}
+		if owner == nil && closingObj != nil {
+			// nobody is parked: the owner (if any) waits for the Destroy; let it finish
+			c.note("harness ceases its vigil: the Destroy in flight can finish")
+			c.destroyHeld.Store(false)
+			closingObj.CeaseVigil()
+			closingObj = nil
+			c.squiesce()
+			continue
 		}
 		if owner == nil {
 			if os.Getenv("C17_DEBUG") != "" {
@@ -723,6 +760,10 @@ func summonCase(srv *rig.Server, idx int, r *common.Rng, second bool) (n, ncance
 	c.mu.Unlock()
 	// clean-up: later summons of the name broadcast on the slot; nothing parks any more
 	c.cleanup.Store(true)
+	if closingObj != nil {
+		c.destroyHeld.Store(false)
+		closingObj.CeaseVigil()
+	}
 	for tries := 0; tries < 400; tries++ {
 		all := true
 		for _, t := range c.thrs {
@@ -952,11 +993,14 @@ func main() {
 			run.Hist("summon_skipped_after_many_hangs")
 			continue
 		}
-		n, nc, hung, human := summonCase(srv, i, rng.Fork(fmt.Sprintf("summon%d", i)), i%3 == 2)
+		n, nc, hung, human := summonCase(srv, i, rng.Fork(fmt.Sprintf("summon%d", i)), i%4 == 2, i%4 == 1)
 		run.Add(common.App("KSummon", common.Nat(n), common.Nat(nc), common.Bool(len(hung) > 0)),
 			map[string]interface{}{"kind": "summon-queue", "requests": n, "contexts_cancelled": nc, "observed": human,
 				"requests_still_blocked_in_the_slot_queue": hung}, nc > 0)
 		run.Hist("summon_queue")
+		if i%4 == 1 {
+			run.Hist("summon_queue_behind_destroy_in_flight")
+		}
 		if nc > 0 {
 			run.Hist("summon_queue_with_cancelled_context")
 		}
